@@ -7,12 +7,14 @@
 package main
 
 import (
+	"bufio"
 	"bytes"
 	"encoding/json"
 	"fmt"
 	"hash/fnv"
 	"image"
 	"image/color"
+	"io"
 	"os"
 	"runtime"
 	"strings"
@@ -212,6 +214,12 @@ func buildStructured() {
 		structured = append(structured, a, b, c, d)
 	}
 }
+
+// plainByteReader hides every method of the wrapped reader except Read and ReadByte
+type plainByteReader struct{ r *bytes.Reader }
+
+func (p plainByteReader) Read(b []byte) (int, error) { return p.r.Read(b) }
+func (p plainByteReader) ReadByte() (byte, error)    { return p.r.ReadByte() }
 
 func space(i int) *sp.API { return &sp.Spaces[i%len(sp.Spaces)] }
 
@@ -417,7 +425,25 @@ func run(op trial.Op, g int) uint64 {
 		if a%4 == 0 {
 			icc.NewProfileReader(bytes.NewReader(rejected[a%len(rejected)])).ReadProfile()
 		}
-		p, err := icc.NewProfileReader(bytes.NewReader(profiles[a%len(profiles)])).ReadProfile()
+		// the reader's own type varies: callers hand over whatever they have
+		pd := profiles[a%len(profiles)]
+		var rd interface {
+			io.Reader
+			io.ByteReader
+		}
+		switch (a / 7) % 5 {
+		case 0:
+			rd = bytes.NewReader(pd)
+		case 1:
+			rd = bytes.NewBuffer(append([]byte(nil), pd...))
+		case 2:
+			rd = strings.NewReader(string(pd))
+		case 3:
+			rd = bufio.NewReaderSize(bytes.NewReader(pd), 64)
+		default:
+			rd = plainByteReader{bytes.NewReader(pd)}
+		}
+		p, err := icc.NewProfileReader(rd).ReadProfile()
 		if err != nil {
 			return digest(err.Error())
 		}
